@@ -186,3 +186,17 @@ def obligation_name(e):
         # for requires-at-call the primary span is the call expression; labels may point to the callee's clause
         pass
     return f'{unit}::{kind}::{what}'
+
+
+def verdict_under_seed(group, seed, timeout=1800):
+    """Thorough tier: re-run Verus on the ALREADY generated build/<group>.rs under another Z3 seed and return (verified, errors).
+    Used only to record whether the verdict depends on the solver's random choices (brittle proofs are tomorrow's false alarms)."""
+    out = os.path.join(BUILD, group + '.rs')
+    cmd = ['verus', out, '--output-json', '--multiple-errors', '50', '--num-threads', '8',
+           '--smt-option', f'smt.random_seed={seed}', '--smt-option', f'sat.random_seed={seed}']
+    try:
+        p = subprocess.run(cmd, capture_output=True, text=True, timeout=timeout, cwd=VERIF)
+        vr = json.loads(p.stdout).get('verification-results', {})
+        return (vr.get('verified', 0), vr.get('errors', 0))
+    except Exception as e:
+        return None
